@@ -134,7 +134,7 @@ prop('C02', level='other', units=[FE], jobs=['find_extrema'],
      trusted=[EXTERNAL['filter'], 'neurodsp compute_filter_length returns a positive integer; np.pad / np.argmax / np.argmin / '
               'np.ceil / nonzero as documented (first extreme position, ValueError on an empty window)'],
      assumptions=[OSC3_DEF],
-     explanation='Proved from the code (first_extrema="peak", filter options None or given, pad True or False, every signal length '
+     explanation='Proved from the code (all three first_extrema modes, filter options None or given, pad True or False, every signal length '
                  'and every filter output satisfying osc3): with R / D the rise / decay zero-crossings of the band-passed padded '
                  'signal, (1) the two crossing sequences strictly alternate (induction over the samples between two crossings), so '
                  'the inner scan of find_extrema stops at decay number q + c for rise q (c in {0,1}); (2) each located peak is the '
@@ -144,9 +144,12 @@ prop('C02', level='other', units=[FE], jobs=['find_extrema'],
                  'trimming removes exactly the leading trough / trailing peak, so the result starts with a peak, alternates strictly, '
                  'has equally many (>= 2) peaks and troughs, all strictly inside the boundary; (4) every reported extremum is the '
                  'first extreme value of one half-wave closed by crossings on both sides, and consecutive reported extrema come from '
-                 'consecutive half-waves (none skipped). No IndexError / empty-argmax on any path. NOT proved: first_extrema="trough" / '
-                 'None (bounded job), that no in-boundary half-wave before the first / after the last reported one is missing '
-                 '(bounded job), the filter itself. Bounded: find_extrema with the filter replaced by every enumerated sign pattern '
+                 'consecutive half-waves (none skipped); (5) completeness at the ends: every half-wave whose sample window lies inside the '
+                 'boundary has its extremum among the reported ones, except the single one the first_extrema rule removes at the front '
+                 '(other kind first) or at the back (equal counts). All of this for first_extrema = "peak", "trough" and None (for None: '
+                 'at least 3 peaks and 2 troughs, no trimming). No IndexError / empty-argmax on any path. NOT proved: half-waves that '
+                 'only partly overlap the boundary region are decided by the position of their extremum (covered by the block argument, '
+                 'not stated as a clause), the filter itself. Bounded: find_extrema with the filter replaced by every enumerated sign pattern '
                  'x raw signals with ties, all boundary / pad / first_extrema values, plus the real filter on the corpus.')
 
 ZX = 'bycycle.cyclepoints.zerox.'
